@@ -147,6 +147,17 @@ CHECKS = {
             "entries in configuration order (by meaning), inbound/outbound interface sets and attached group members "
             "(IOS members read as net masks) with Config.Extract.",
             "7 (C07)"),
+    "C12": ("model_checking",
+            "TLA+ spec (Lines: kinds of body lines, outcome of a construction, accounting identity) model-checked by TLC; "
+            "TLC-enumerated kind sequences concretised with real lines and built as Acl / AceGroup / AddrGroup with all log "
+            "records captured; TLC classifies each body line from its tokens and accounts for it",
+            "TLC checks for every sequence of <= 5 line kinds that items + reported + ignorable = body lines and that a "
+            "construction fails only where documented; every kind sequence of length <= 4 is concretised repeatedly (valid "
+            "ACEs/remarks, the three ignorable prefixes, over-limit wildcards, 27 sorts of junk incl. near-keywords and lines "
+            "that only look like an ACE) plus random mixes of 5..10 lines on both platforms; TLC (Trace_C12) requires every "
+            "valid line as an item in line order, no item without a line, every other non-ignorable line reported in a log "
+            "record (or represented by an item), failure only with an over-limit wildcard (ACL) or no valid member (group).",
+            "7 (C12)"),
 }
 
 NOT_YET = {
